@@ -352,3 +352,22 @@ Proof.
   - intros k. apply scale_Q2R.
   - intros _ _. apply make_bezier_Q2R.
 Qed.
+
+(** * sb_poly_make_linear / make_bezier with the tiny-duration branch *)
+Lemma make_bezier_c_agrees : forall d pts,
+  Qle_bool SB.Base.F32.FLT_EPSILON (Qabs' d) = true -> make_bezier_c d pts = make_bezier QOps d pts.
+Proof.
+  intros d pts H. unfold make_bezier_c, make_linear_c.
+  destruct pts as [|p0 [|p1 [|p2 r]]]; try reflexivity.
+  rewrite H. reflexivity.
+Qed.
+
+(** below FLT_EPSILON the code returns the constant polynomial (x0+x1)/2:
+    its value does not depend on the argument *)
+Lemma make_linear_tiny : forall d x0 x1 u,
+  Qle_bool SB.Base.F32.FLT_EPSILON (Qabs' d) = false ->
+  (horner QOps (make_linear_c d x0 x1) u == (x0 + x1) / 2)%Q.
+Proof.
+  intros d x0 x1 u H. unfold make_linear_c. rewrite H.
+  cbn [horner QOps add mul zero]. rewrite !Qred_correct. field.
+Qed.
